@@ -13,7 +13,7 @@ def affinity_scenarios(tier):
     ok = {s["name"]: s for s in corpus.fanout_ok_family(tier)}
     ch = {s["name"]: s for s in corpus.child_family(tier)}
     base = [seq["seq-two-exec-one-machine"], seq["seq-retry-ok"], seq["seq-async-child"], ok["par-2x1"], ok["map-n2-mc1"], ch["child-sync-ok"], ch["token-success"], ch["child-sync-in-parallel"], ch["child-sdk-express-ok"], ch["child-sync2-ok"],
-            seq["seq-unroutable-beside-blocked"], seq["seq-invoke-two-functions"], seq["seq-invoke-two-machines"]]
+            seq["seq-unroutable-beside-blocked"], seq["seq-invoke-two-functions"], seq["seq-invoke-two-machines"], seq["seq-invoke-function-from-input"]]
     # acknowledgements of what is dropped (poison events) while another execution's deliveries are outstanding on the same channel
     by = {s["name"]: s for s in corpus.bystander_family(tier)}
     base += [by["by+poison-not-json"], by["by+poison-no-context"]] + ([by["by+poison-unknown-machine"], by["by+poison-json-array"]] if tier != "quick" else [])
